@@ -17,7 +17,7 @@ pub fn edge_driver(out: &str, seed: u64, n: u64) {
     let mut r = Recorder::new(&format!("{}/edge.trace", out), base_setup());
     let (mut nbk, mut nkill, mut nclose, mut nutil) = (0u64, 0u64, 0u64, 0u64);
     for k in 0..n {
-        match k % 10 {
+        match k % 11 {
             0 => {
                 // ---- exact wipe: the sole borrower drew every deposited token (or all but delta), no fees, no time (or a
                 // second), empty or tiny insurance; collateral made worthless; bankruptcy. Uncovered loss =, <, > deposits.
@@ -25,7 +25,7 @@ pub fn edge_driver(out: &str, seed: u64, n: u64) {
                 let x: u64 = *pick(&mut rng, &[1_000_000u64, 123_456_789, 7, 50_000_000_000]);
                 // (loss = deposits, deposits - 1, deposits - 2; insurance empty, a unit, half, all, more than the debt)
                 let combos: [(u64, u64); 8] = [(0, 0), (1, 0), (0, 1), (0, x.saturating_add(5)), (2, 0), (0, x / 2), (0, x.saturating_mul(3)), (1, x)];
-                let (delta, ins) = combos[((k / 10) % 8) as usize];
+                let (delta, ins) = combos[((k / 11) % 8) as usize];
                 let two_lenders = rng.gen_bool(0.4);
                 let mut extra = vec![];
                 plain_bank("D1", dec, "spl", "1", json!({"ir":{"orig_fee":"0"}}), &mut extra);
@@ -439,6 +439,9 @@ pub fn edge_driver(out: &str, seed: u64, n: u64) {
                 }
                 r.act(json!({"op":"purge","acct":"LP","bank":"D1"}));                              // not flagged
                 r.act(json!({"op":"configure_bank","bank":"D1","cfg":{"tokenless_allowed":true}}));
+                // (interest keeps accruing on a bank that is being wound down, fees included)
+                r.act(json!({"op":"tick","dt": *pick(&mut rng, &[3600i64, 2_592_000])}));
+                r.act(json!({"op":"accrue","bank":"D1"}));
                 r.act(json!({"op":"purge","acct":"LP","bank":"D1"}));                              // allowed, not complete
                 r.act(json!({"op":"tokenless_complete","bank":"D1"}));
                 r.act(json!({"op":"purge","acct":"A1","bank":"D1"}));                              // a debt position (or none)
@@ -497,6 +500,45 @@ pub fn edge_driver(out: &str, seed: u64, n: u64) {
                 r.act(json!({"op":"withdraw","acct":"A1","bank":"S2","amount":0,"all":true}));
                 r.act(json!({"op":"deposit","acct":"A1","bank":"S17","amount":500}));
                 r.act(json!({"op":"pulse_health","acct":"A1"}));
+            }
+            10 => {
+                // ---- an operation that reaches across the zero of a position by less than 0.0001 of a token: a withdrawal of
+                // slightly more than the deposit is worth, a borrow against a deposit of less than 0.0001 (share value set to a
+                // chosen figure - marked state injection - so that the deposit's worth is a whole number minus / plus 0.00005)
+                let mut extra = vec![];
+                plain_bank("D1", 6, "spl", "1", json!({"ir":{"orig_fee":"0"}}), &mut extra);
+                plain_bank("C1", 6, "spl", "1", json!({"aw_init":"1","aw_maint":"1"}), &mut extra);
+                extra.push(json!({"op":"fund","user":"U9","mint":"M.D1","amount":"4000000000000000000"}));
+                extra.push(json!({"op":"fund","user":"U1","mint":"M.D1","amount":"4000000000000000000"}));
+                extra.push(json!({"op":"fund","user":"U1","mint":"M.C1","amount":"4000000000000000000"}));
+                r.begin(&extra);
+                let below = (k / 11) % 2 == 0;
+                r.act(json!({"op":"deposit","acct":"LP","bank":"D1","amount":50_000_000}));
+                r.act(json!({"op":"deposit","acct":"A1","bank":"C1","amount":1_000_000_000}));
+                r.act(json!({"op":"deposit","acct":"A1","bank":"D1","amount":1000}));
+                r.act(json!({"op":"fund_vault","mint":"M.D1","dst":"D1.liq","amount":"1000000"}));
+                r.act(json!({"op":"inject_bank","bank":"D1","asv": if below { "1.00099995" } else { "1.00000005" }}));
+                if below {
+                    // the deposit is worth 1000.99995: withdrawing 1001 reaches 0.00005 past it
+                    for amt in [1001u64, 1002, 1000] {
+                        r.fork(&mut |r: &mut Recorder| {
+                            r.act(json!({"op":"withdraw","acct":"A1","bank":"D1","amount":amt}));
+                            r.act(json!({"op":"pulse_health","acct":"A1"}));
+                            r.act(json!({"op":"repay","acct":"A1","bank":"D1","amount":0,"all":true}));
+                        });
+                    }
+                } else {
+                    // worth 1000.00005: after withdrawing 1000, 0.00005 is left; a borrow then starts from that remainder
+                    r.act(json!({"op":"withdraw","acct":"A1","bank":"D1","amount":1000}));
+                    for amt in [5u64, 1] {
+                        r.fork(&mut |r: &mut Recorder| {
+                            r.act(json!({"op":"borrow","acct":"A1","bank":"D1","amount":amt}));
+                            r.act(json!({"op":"repay","acct":"A1","bank":"D1","amount":0,"all":true}));
+                        });
+                    }
+                    r.act(json!({"op":"deposit","acct":"A1","bank":"D1","amount":7}));
+                    r.act(json!({"op":"withdraw","acct":"A1","bank":"D1","amount":0,"all":true}));
+                }
             }
             _ => {
                 // ---- a solvent account in a collateral bank whose collateral-value cap is lowered far below its deposits
